@@ -294,6 +294,8 @@ def workload(task):
             rest = [p for p in prefixes if p not in set(aimed)]
             prefixes = sorted(set(aimed) | set(rng.sample(rest, max(task['max_prefixes'] - len(aimed), 1))))
             stat('prefixes_aimed_after_file_creation', len(aimed))
+        if task.get('only_prefix'):
+            prefixes = [p for p in (task['only_prefix'],) if p <= n_events]
         topics = sorted(sr.inst[1].topics)
         out['sample'] = {'params': params, 'ops': len(prog['ops']), 'trace_events': n_events, 'first_events': [(e['class'], e['kind'], os.path.basename(e['path']), e['off'], e['len']) for e in trace[:14]]}
         for t in prefixes:
@@ -388,7 +390,7 @@ def replay(path):
     rp = json.load(open(path))
     r = rp['replay']
     binary = common.build('wsrv', 'debug')
-    res = workload({'binary': binary, 'seed': r['seed'], 'idx': r['idx'], 'max_prefixes': 10 ** 6, 'max_choices': 12})
+    res = workload({'binary': binary, 'seed': r['seed'], 'idx': r['idx'], 'max_prefixes': 10 ** 6, 'max_choices': 12, 'only_prefix': r.get('prefix')})
     fs = [f for f in res['findings'] if f['cls'] == rp['class']]
     print(json.dumps(fs[:3], indent=1, default=str)[:3000])
     print('REPRODUCED' if fs else 'NOT-REPRODUCED')
